@@ -12,11 +12,13 @@ package main
 import (
 	"bytes"
 	"fmt"
+	"io"
 	"math"
 	"math/bits"
 	"os"
 	"runtime/pprof"
 	"sort"
+	"strings"
 
 	imodel "github.com/lindb/lindb/index/model"
 	"github.com/lindb/lindb/internal/venum"
@@ -46,6 +48,20 @@ func excludedForBuilder(keys []string) (bool, string) {
 		return true, "only-empty-key"
 	}
 	return false, ""
+}
+
+var bigK [][]byte
+var bigV []uint32
+
+// bigDictionary: 600 keys with long distinct tails (many LOUDS words, many suffix bytes, several levels).
+func bigDictionary() ([][]byte, []uint32) {
+	if bigK == nil {
+		for i := 0; i < 600; i++ {
+			bigK = append(bigK, []byte(fmt.Sprintf("k%03d/%s", i, strings.Repeat(string(rune('a'+i%26)), 1+i%7))))
+			bigV = append(bigV, uint32(i+1))
+		}
+	}
+	return bigK, append([]uint32(nil), bigV...)
 }
 
 func toBytes(keys []string) [][]byte {
@@ -187,6 +203,38 @@ func runKeySet(rep *vevid.Report, d caseDesc, dry bool) int {
 			}()
 		}
 		rep.Count("tries_checked", 2)
+	}
+	// ---- the same dictionary written by a builder that wrote a much bigger dictionary before (what a
+	// TrieBucketBuilder / an index flush does: one builder, Reset per bucket or block) ----
+	if ex, _ := excludedForBuilder(m.keys()); !ex && sel() {
+		c := mk("trie", "trie-reused-builder")
+		func() {
+			defer c.guard("trie.Builder (reused)")
+			b := trie.NewBuilder()
+			bk, bv := bigDictionary()
+			b.Build(bk, bv)
+			if err := b.Write(io.Discard); err != nil {
+				c.bad("serialise", "trie.Builder.Write", "Write of the first (big) dictionary failed: %v", err)
+				return
+			}
+			b.Reset()
+			b.Build(toBytes(m.keys()), append([]uint32(nil), m.sortedByKeyValues()...))
+			var buf bytes.Buffer
+			if err := b.Write(&buf); err != nil {
+				c.bad("serialise", "trie.Builder.Write", "Write after Reset failed: %v", err)
+				return
+			}
+			if sz := b.MarshalSize(); sz != buf.Len() {
+				c.bad("serialise", "trie.Builder.MarshalSize", "after Reset MarshalSize()=%d but Write produced %d bytes", sz, buf.Len())
+			}
+			t2 := trie.NewTrie()
+			if err := t2.UnmarshalBinary(buf.Bytes()); err != nil {
+				c.bad("load", "trie.UnmarshalBinary", "UnmarshalBinary (reused builder) failed: %v", err)
+				return
+			}
+			c.checkTrie(t2, probes)
+		}()
+		rep.Count("tries_checked", 1)
 	}
 
 	if d.Name == "fan" {
